@@ -311,6 +311,10 @@ func runC12(c *Ctx) {
 	c.arityGate("R12.3")
 	c.ruleOpt("R12.5", "arity, parameter types and function are read from the method descriptor after name and alias resolution")
 	c.descriptorReadAfterResolution("R12.5")
+	c.rule("R12.6", "the only rejections before the handler are: unknown name and alias, unsupported channel mode, malformed / mis-sized / undecodable params")
+	c.rejectionReasons("R12.6")
+	c.rule("R12.7", "an alias is recorded unconditionally (it is resolved when a request arrives, so it may be declared before its target is registered)")
+	c.aliasStoredUnconditionally("R12.7")
 	c.rule("R12.4", "handler arguments are only ever produced by encoding/json or the registered parameter decoder (type mismatches cannot be bypassed)")
 	c.argumentOrigins("R12.4")
 }
@@ -604,4 +608,44 @@ func decodedInto(newCall *ssa.Call) bool {
 	}
 	walk(newCall, 0)
 	return found
+}
+
+// aliasStoredUnconditionally: R12.7. An alias names its target by string and is resolved when a request
+// arrives; it may be declared before the target is registered. The function that records an alias
+// therefore stores it without asking any table whether the target exists (a "typo check" against the
+// method table silently drops aliases declared ahead of Register).
+func (c *Ctx) aliasStoredUnconditionally(rule string) {
+	p := c.P
+	n := 0
+	for _, fn := range p.Funcs {
+		if pkgOf(fn) != p.Root.Pkg || fn.Parent() != nil || len(fn.Params) != 3 {
+			continue
+		}
+		// a method (receiver, alias string, original string) that updates a map[string]string field
+		allInstrsRaw(fn, func(in ssa.Instruction) {
+			mu, ok := in.(*ssa.MapUpdate)
+			if !ok {
+				return
+			}
+			mt, ok := mu.Map.Type().Underlying().(*types.Map)
+			if !ok || !isStringType(mt.Key()) || !isStringType(mt.Elem()) {
+				return
+			}
+			if mu.Key != ssa.Value(fn.Params[1]) || mu.Value != ssa.Value(fn.Params[2]) {
+				return
+			}
+			n++
+			construct := fmt.Sprintf("%s: alias recorded", fname(fn))
+			var odd ssa.Value
+			for _, cf := range expandConds(impliedConds(mu.Block())) {
+				if c.dependsOn(cf.Cond, func(v ssa.Value) bool { _, isLk := v.(*ssa.Lookup); return isLk }, 0, map[ssa.Value]bool{}) {
+					odd = cf.Cond
+				}
+			}
+			c.check(odd == nil, rule, construct, c.ipos(mu), "stored without consulting another table", "the alias is recorded only if a table lookup (is the target registered?) succeeds: an alias declared before its target is registered is silently dropped, and requests for it get 'method not found' although alias and target both exist when they arrive")
+		})
+	}
+	if n == 0 {
+		c.und(rule, "alias registration", "-", "no function recording (alias, original) into a string table found")
+	}
 }
